@@ -271,7 +271,20 @@ def run(ctx, obl):
             return int(m["spec"].get("nitems", "0")) >= 4
         vals = [v for k, v in m["spec"].items() if not k.startswith(("same:", "exit", "json:"))]
         return len(c["pk"]["types"]) >= 2 and sum(1 for v in vals if v not in ("-", "none", "")) >= 2
-    core.compare_cases(ctx, res, cases, impl, model, sig=sig, nontrivial=nontrivial)
+    # per-type CONTENT that does not depend on the generator state or on the directory (number of constructor parameters,
+    # option functions, defaults, tag values, own accessors, exported JSON fields) belongs to C02/C03/C11/C13: compared, but
+    # advisory here - what this property asserts on it is `same:T` (combined = per-process = permuted, at AST level)
+    class Strict:
+        def __contains__(self, k):
+            return k.split(":")[0] not in ("nparams", "opts", "defs", "tags", "jexp", "gl", "sl", "json")
+    core.compare_cases(ctx, res, cases, impl, model, sig=sig, nontrivial=nontrivial, keys=Strict())
+    for c in cases:
+        m = model.get(c["id"])
+        if m and m["region"] != "Out":
+            d = [k for k, v in m["model"].items() if k not in Strict() and impl[c["id"]].get(k) != v]
+            if d:
+                res.hist("content-advisory", d[0].split(":")[0])
+                res.advisory.append({"case": c["sexp"][:200], "keys": d[:6], "cmd": c["cmd"][:120]})
     for v in res.violations + res.tie_breaks:
         cid = v["case"].split(" ")[1] if isinstance(v.get("case"), str) else None
         for c in cases:
